@@ -86,3 +86,10 @@ CHECKS["C20"] = dict(
     text="For each of the 10 prefix styles x year forms x holders with one free character (ANY code point) at the start, middle or end - and two free characters at the end - CrossHair confirms over all paths that make_copyright_line's output is recognised by the first matching real pattern with exactly that prefix, year and holder, and that a holder which already is a notice comes back verbatim. For every pair of notices over 4 holders x 4 prefixes x 5 year forms, and triples of one holder, it confirms that merge_copyright_lines keeps the holder set, gives each holder one line and a year range spanning all stated years.",
     note="PYRE is validated against re on every run (repository test literals + generated lines; disagreement = harness error); fully concrete subjects go to the real compiled pattern. Year digits are concrete forms (symbolic digits exceeded every budget). Known finding: a holder ending like a comment terminator is read back truncated.",
 )
+
+CHECKS["C02"] = dict(
+    engine="XH+PYRE",
+    technique="symbolic execution (CrossHair + z3) of the real find_spdx_tag and copyright reader with the real tag/terminator patterns executed by an exact regex interpreter (PYRE) on lines with free characters; window/snippet rule over an in-memory stream",
+    text="For each of ~60 distinct decorations harvested from the real comment-style table (single-line prefix, inline multi-line, first/middle/last line of a block, ASCII frame, tab and trailing blanks, XML attribute, reST field) and each tag kind (licence, contributor, five copyright spellings) CrossHair confirms over all paths that a value with one free character (ANY code point but line breaks; two free characters on a slice) is read back exactly. It also confirms that a tag line counts iff it lies inside the first 4096 bytes or the file holds a snippet marker (tag placed at every offset 4036..4103), and that a snippet marker is found at every offset around a 4096-byte block boundary.",
+    note="PYRE validated against re each run; concrete subjects go to the real compiled pattern. Known findings (carved out by predicates computed from the real terminator pattern, re-established from witnesses each run): value ending like a terminator of any style; value ending with the mirrored prefix; copyright keeps the closing frame; tag straddling the 4 KiB limit is truncated. Outside: >2 free characters, invalid UTF-8, CRLF folding.",
+)
